@@ -11,6 +11,7 @@ import (
 	"strings"
 
 	"github.com/labstack/echo/v4"
+	"github.com/labstack/echo/v4/middleware"
 )
 
 type c02Host struct {
@@ -91,6 +92,9 @@ func c02Serve(c *c02Case, perm []int) c02Obs {
 	}
 	if c.Pre {
 		e.Pre(func(next echo.HandlerFunc) echo.HandlerFunc { return func(ctx echo.Context) error { return next(ctx) } })
+	}
+	if c.Req.Override {
+		e.Pre(middleware.MethodOverride())
 	}
 	if (len(c.Req.Path)+len(c.Req.Host)+len(c.Routes))%2 == 0 {
 		// the application has just answered requests for the OTHER host names (and the default one): nothing those
@@ -313,6 +317,7 @@ func c02Gen(r *rand.Rand, tier string) []any {
 				}
 			}
 			p := perms[r.Intn(len(perms))]
+			q.Override = q.Method != "" && q.Method != routeNotFound && r.Intn(8) == 0
 			out = append(out, &c02Case{Routes: routes, Perm: p, Hosts: hosts, Req: q, Pre: r.Intn(4) == 0})
 		}
 	}
